@@ -282,8 +282,15 @@ Manifest decode_manifest(const std::string& uri) {
     std::copy_n(payload.begin() + offset, manifest.nonce.bytes.size(), manifest.nonce.bytes.begin());
     offset += manifest.nonce.bytes.size();
 
-    const auto expires = read_u64(payload, offset);
+    const auto expires = static_cast<std::int64_t>(read_u64(payload, offset));
     offset += 8;
+    // system_clock counts in a finer unit than seconds; reject values the conversion cannot represent.
+    using clock_duration = std::chrono::system_clock::duration;
+    constexpr auto max_expiry = std::chrono::duration_cast<std::chrono::seconds>(clock_duration::max()).count();
+    constexpr auto min_expiry = std::chrono::duration_cast<std::chrono::seconds>(clock_duration::min()).count();
+    if (expires > max_expiry || expires < min_expiry) {
+        throw std::invalid_argument("manifest expiry out of range");
+    }
     manifest.expires_at = std::chrono::system_clock::time_point{std::chrono::seconds{expires}};
 
     manifest.threshold = payload[offset++];
